@@ -37,10 +37,59 @@ int cmp_p(int a, int b)
 }
 // the position of a priority in the order the comparison function induces
 long rank_of(int prio) { return g_cmp_kind == 1 ? -(long)prio : (long)prio; }
+// "any comparison function" includes one that uses another heap while it compares (priorities derived from a second
+// queue). In re-entrant cases (header byte 2, bits 7 and 6) every comparison pushes onto a small heap of its own, asks for
+// its top and pops it again.
+bool g_reenter;
+struct cstl_heap g_aux;
+int g_aux_token;
+Elem g_aux_e[4];
+int aux_cmp(const void *a, const void *b, void *p)
+{
+    CHECK_NOTHROW(p == &g_aux_token, "C07.cmp.priv", "compare function of the auxiliary heap received a different priv pointer");
+    return ((const Elem *)a)->prio - ((const Elem *)b)->prio;
+}
+void aux_setup()
+{
+    HarnessScope hs;
+    memset(&g_aux, 0xA5, sizeof g_aux);
+    cstl_heap_init(&g_aux, aux_cmp, &g_aux_token, offsetof(Elem, hn));
+    for (int i = 0; i < 3; i++) {
+        memset(&g_aux_e[i], 0x5a, sizeof g_aux_e[i]);
+        g_aux_e[i].prio = 10 * (i + 1);
+        LIB(cstl_heap_push(&g_aux, &g_aux_e[i]));
+    }
+}
+void aux_use(int x)
+{
+    HarnessScope hs;
+    CNT("class.heap.reentrant_cmp");
+    Elem *e = &g_aux_e[3];
+    memset(e, 0x5a, sizeof *e);
+    e->prio = (x & 1) ? 35 : 5;            // above / below the present top (30)
+    const void *g;
+    void *r;
+    size_t sz;
+    LIB(cstl_heap_push(&g_aux, e));
+    LIB(g = cstl_heap_get(&g_aux));
+    CHECK_NOTHROW(g == ((x & 1) ? (const void *)e : (const void *)&g_aux_e[2]), "C07.top.max", "a heap used from inside the comparison function of another heap did not yield its maximum");
+    if (x & 1) { LIB(r = cstl_heap_pop(&g_aux)); CHECK_NOTHROW(r == e, "C07.top.max", "a heap used from inside the comparison function of another heap did not pop its maximum"); }
+    else {
+        // take everything out and put the three residents back
+        void *o[4];
+        for (int i = 0; i < 4; i++) LIB(o[i] = cstl_heap_pop(&g_aux));
+        CHECK_NOTHROW(o[0] == &g_aux_e[2] && o[1] == &g_aux_e[1] && o[2] == &g_aux_e[0] && o[3] == e, "C07.top.max",
+                      "a heap used from inside the comparison function of another heap did not pop in order");
+        for (int i = 0; i < 3; i++) LIB(cstl_heap_push(&g_aux, &g_aux_e[i]));
+    }
+    LIB(sz = cstl_heap_size(&g_aux));
+    CHECK_NOTHROW(sz == 3, "C07.size", "auxiliary heap reports size %zu, expected 3", sz);
+}
 int cmp_cb(const void *a, const void *b, void *p)
 {
     // (under C15 a wrong priv after clear is C15's finding: the cleared heap must work like a fresh one)
     CHECK_NOTHROW(p == &g_priv_token, g_prop == "C15" ? "C15.heap.reuse" : "C07.cmp.priv", "compare function received a different priv pointer");
+    if (g_reenter) aux_use(((const Elem *)a)->prio ^ ((const Elem *)b)->prio);
     return cmp_p(((const Elem *)a)->prio, ((const Elem *)b)->prio);
 }
 
@@ -242,10 +291,13 @@ void vf_run(const uint8_t *data, size_t len)
     Cursor cur(data, len);
     int K = KEYS[cur.u8() % 6];
     g_cmp_kind = cur.u8() % 3;
-    size_t maxlive = MAXLIVE[cur.u8() % 8];
+    uint8_t lb = cur.u8();
+    size_t maxlive = MAXLIVE[lb % 8];
     int prof = cur.u8() % NPROFILES;
     bool c15 = g_prop == "C15";
     CaseCtx cx{};
+    g_reenter = false;
+    if ((lb & 0xC0) == 0xC0 && len < 3000) { aux_setup(); g_reenter = true; }
     H.init("heap");
     HW.init("heap'");
     bool twin = false, swapped = false;
